@@ -52,7 +52,7 @@ def run(ctx, kspec):
                "-out", res_path, "-workers", str(k.get("workers", 8)), "-timeout", str(timeout_ms), "-unwind", str(k.get("unwind", 6)),
                "-witnesses", "3" if ctx.tier == "quick" else "10", "-seed", str(ctx.seed)]
         # z3 5.1.0 decides the bit-vector string kernels in seconds where 4.8.12 times out (measured)
-        cmd += ["-solver", k.get("solver", "z3-new")]
+        cmd += ["-solver", k.get("solver", "z3-new"), "-fallback", "z3"]
         if ctx.tier == "thorough" and k.get("solver2", "z3"):
             cmd += ["-solver2", k.get("solver2", "z3")]
         p = sh(cmd, check=False, timeout=7200)
